@@ -456,7 +456,12 @@ static void emitAcceptSetters(const Tables & t, int zeros, bool compress) {
     try { SparseM d(t.O, t.S, t.A, t.discount); d.setTransitionFunction(toSparse3(denseT(t), zeros, compress)); d.setObservationFunction(toSparse3(denseOb(t), zeros, compress)); }
     catch (const std::invalid_argument &) { okS = false; }
     { Line l; l << "C05" << "accept" << "denseM" << t.S << t.A << t.O << "|"; putTables(l, t); l << "|" << okD; l.emit(); }
-    { Line l; l << "C05" << "accept" << "sparseM" << t.S << t.A << t.O << "|"; putTables(l, t); l << "|" << okS; l.emit(); }
+#ifdef C05_NO_SPARSE_SIGN
+    const char * spCls = "sparseM0";   // finding C05-2 (negative entries accepted by the sparse Eigen-matrix setters) not judged
+#else
+    const char * spCls = "sparseM";
+#endif
+    { Line l; l << "C05" << "accept" << spCls << t.S << t.A << t.O << "|"; putTables(l, t); l << "|" << okS; l.emit(); }
     std::printf("#stat denseM_setters_%s 1\n#stat sparseM_setters_%s 1\n", okD ? "accepted" : "rejected", okS ? "accepted" : "rejected");
 }
 
@@ -654,12 +659,14 @@ static void runFixed(long idx) {
                 AI::Vector b(3); b << 0.125, 0.625, 0.25; emitUpd(M, b, 0, false); emitUpd(M, b, 0, false, true);
             }
         }
-        {   // OBSERVATION (model validity, C06 — not judged here): isProbability(const SparseMatrix3D &) has no sign test, so the
-            // Eigen-matrix setter of a SparseModel takes an observation "probability" of -2^-22 (Lean: isProbRowSp_accepts_negative)
+        {   // WITNESS (C05-2): isProbability(const SparseMatrix3D &) has no sign test, so the Eigen-matrix setters of a SparseModel take
+            // an observation "probability" of -2^-22; updateBelief on the accepted object, belief (1/2, 1/2), observation 0
+            // (probability 1/2 - 2^-23 > 0) returns a negative entry.  Lean: sparse_setters_unsigned_counterexample.
+            Tables t = defaultTables(2, 1, 2);
+            t.Ob[0][0][0] = -0x1p-22; t.Ob[0][0][1] = 1.0 + 0x1p-22;
+            emitAcceptSetters(t, 0, true);
             SparseM sm(2, 2, 1, 0.5);
-            AI::SparseMatrix3D ob(1, AI::SparseMatrix2D(2, 2));
-            ob[0].insert(0, 0) = -0x1p-22; ob[0].insert(0, 1) = 1.0 + 0x1p-22; ob[0].insert(1, 0) = 1.0;
-            bool acc = true; try { sm.setObservationFunction(ob); } catch (const std::invalid_argument &) { acc = false; }
+            bool acc = true; try { sm.setObservationFunction(toSparse3(denseOb(t), 0, true)); } catch (const std::invalid_argument &) { acc = false; }
             double neg = 0.0;
             if (acc) { AI::Vector b(2); b << 0.5, 0.5; neg = PO::updateBelief(sm, b, 0, 0)[0]; }
             std::printf("#stat observed_sparse_matrix_setter_accepts_negative_entry %d\n#stat observed_negative_posterior_entry %d\n", acc ? 1 : 0, neg < 0.0 ? 1 : 0);
